@@ -500,7 +500,7 @@ pub fn c11(ctx: &Ctx, rep: &mut Report) {
             let replay = || {
                 let mut j = ctx.replay_json(idx);
                 j["input"] = json!(show(&input));
-                j["input_hex"] = json!(gen::hex(&input));
+                j["input_hex"] = json!(gen::hex_limited(&input));
                 j["capacity"] = json!(cap);
                 j["via_sets"] = json!(via_sets);
                 j
